@@ -197,21 +197,24 @@ Fixpoint render_entries (first : bool) (es : entries) : str :=
 Definition render (es : entries) : str := [123%N] ++ render_entries true es ++ [125%N].
 Definition obs_string (s : stor) : str := render (iter s).
 
-(* Map.Equals *)
-Fixpoint equals_loop (es : entries) (other : stor) : option bool :=
+(* Map.Equals (after "fix: '=' on maps does not depend on the order of the entries nor on which map
+   is the receiver"): after the size check ALL entries are visited; the first element comparison
+   that fails ends the iteration and its error is the result (an error wins over a difference found
+   earlier); otherwise false if some entry differs or a key is missing, else true. [eq] is the Go
+   variable eq. *)
+Fixpoint equals_loop (es : entries) (other : stor) (eq : bool) : option bool :=
   match es with
-  | [] => Some true
+  | [] => Some eq
   | (k, v) :: r => match get other k with
                    | Some o => match veq o v with
                                | None => None
-                               | Some false => Some false
-                               | Some true => equals_loop r other
+                               | Some b => equals_loop r other (eq && b)
                                end
-                   | None => Some false
+                   | None => equals_loop r other false
                    end
   end.
 Definition equals (a b : stor) : option bool :=
-  if Nat.eqb (size a) (size b) then equals_loop (iter a) b else Some false.
+  if Nat.eqb (size a) (size b) then equals_loop (iter a) b true else Some false.
 
 (* export.Export: collect the keys by Iter, sort.Strings, then Get each (absent keys are skipped) *)
 Fixpoint insert_sorted (k : str) (l : list str) : list str :=
